@@ -305,18 +305,35 @@ def enc_multi(ret, log):
 
 
 # multi-actions whose sub-actions are multi-actions again.  tree: ["leaf", ok, data] | ["multi", stop, [tree...]]
-def build_tree(t, log, counter):
+def build_tree(t, log, counter, memo=None):
+    """memo (shared instances): leaves with the same outcome are ONE action object, listed several times"""
     if t[0] == "leaf":
         i = counter[0]
         counter[0] += 1
+        if memo is not None:
+            if (t[1], t[2]) not in memo:
+                memo[(t[1], t[2])] = RecAction("s%d" % i, i, (t[1], t[2]), log)
+            return memo[(t[1], t[2])]
         return RecAction("s%d" % i, i, (t[1], t[2]), log)
-    return BoboActionMultiSequential("m%d" % len(log), [build_tree(x, log, counter) for x in t[2]], t[1])
+    return BoboActionMultiSequential("m%d" % len(log), [build_tree(x, log, counter, memo) for x in t[2]], t[1])
 
 
-def impl_tree(t):
+def impl_tree(t, shared=False):
     log = []
-    ret = build_tree(t, log, [0]).execute(mk_event(1, 7, 17))
+    ret = build_tree(t, log, [0], {} if shared else None).execute(mk_event(1, 7, 17))
     return ret, log
+
+
+def canon_ids(t, counter, memo, out):
+    """position -> index logged by the (shared) instance standing at that position"""
+    if t[0] == "leaf":
+        i = counter[0]
+        counter[0] += 1
+        out[i] = memo.setdefault((t[1], t[2]), i)
+    else:
+        for x in t[2]:
+            canon_ids(x, counter, memo, out)
+    return out
 
 
 def ref_tree(t, counter):
@@ -361,16 +378,19 @@ def enc_tree(ret, log):
     return [flag(ok)] + enc_rdata(data) + [len(log)] + [ival(i) for i in log]
 
 
-def c_tree(t, counter):
+def c_tree(t, counter, ids=None):
     if t[0] == "leaf":
         i = counter[0]
         counter[0] += 1
-        return "(ALeaf %d%%nat %s %s)" % (i, cbool(t[1]), zz(t[2]))
-    return "(AMulti %s %s)" % (cbool(t[1]), clist([c_tree(x, counter) for x in t[2]]))
+        return "(ALeaf %d%%nat %s %s)" % (i if ids is None else ids[i], cbool(t[1]), zz(t[2]))
+    return "(AMulti %s %s)" % (cbool(t[1]), clist([c_tree(x, counter, ids) for x in t[2]]))
 
 
-def oracle_tree(t, ret, log):
+def oracle_tree(t, ret, log, shared=False):
     ok, data, lg = ref_tree(t, [0])
+    if shared:
+        ids = canon_ids(t, [0], {}, {})
+        lg = [ids[i] for i in lg]
     fails = []
     if list(log) != lg:
         fails.append(("multi-nested-executed-set", "executed leaves %s, documented %s" % (log, lg)))
@@ -396,6 +416,22 @@ def tree_cases(rng, q):
             out.append(["multi", so, [["multi", si, [lv[0], ["multi", not si, [lv[1], lv[2]]]]], lv[3]]])
     for _ in range(300 if q else 5000):
         out.append(rand_tree(rng, 3))
+    return out
+
+
+def shared_tree_cases(rng, q):
+    """few distinct outcomes, so that the same instance stands at several positions"""
+    out = []
+    for stop in (True, False):
+        for n in (2, 3, 4):
+            for vec in itertools.product(((True, 1), (False, 2), (True, 3)), repeat=n):
+                out.append(["multi", stop, [["leaf", o, d] for o, d in vec]])
+    def rt(depth, top=True):
+        if not top and (depth == 0 or rng.random() < 0.6):
+            return ["leaf"] + list(rng.choice(((True, 1), (False, 2), (True, 3), (False, 4))))
+        return ["multi", rng.random() < 0.5, [rt(depth - 1, False) for _ in range(rng.randint(1, 4))]]
+    for _ in range(150 if q else 2500):
+        out.append(rt(3))
     return out
 
 
@@ -1063,6 +1099,16 @@ def _run(ctx, res, rng, q):
         add_failures(res, oracle_tree(t, ret, log), case)
         tcases.append((c_tree(t, [0]), enc_tree(ret, log)))
         tmeta.append(case)
+    # the same action OBJECT listed several times ([notify, write, notify], [send, send] as "try twice")
+    for t in shared_tree_cases(rng, q):
+        ret, log = impl_tree(t, shared=True)
+        ids = canon_ids(t, [0], {}, {})
+        res.note_case(("multi-tree-shared", repr(t)), len(set(ids.values())) < len(ids))
+        res.count("multi_tree_shared_instances")
+        case = dict(kind="multi-tree", tree=t, shared=True)
+        add_failures(res, oracle_tree(t, ret, log, shared=True), case)
+        tcases.append((c_tree(t, [0], ids), enc_tree(ret, log)))
+        tmeta.append(case)
     # informational: the constructor refuses an empty list
     try:
         BoboActionMultiSequential("m", [], True)
@@ -1268,13 +1314,14 @@ def replay(obj):
         model, _ = common.coq_eval("C20", "Model.Action", "run_C20_multi (%s, %s)" % (cbool(stop), c_outs(outs)))
         fails = oracle_multi(stop, outs, ret, log)
     elif kind == "multi-tree":
-        t = case["tree"]
-        ret, log = impl_tree(t)
-        print("multi-action tree:", t)
+        t, sh = case["tree"], bool(case.get("shared"))
+        ret, log = impl_tree(t, shared=sh)
+        print("multi-action tree%s:" % (" (leaves with the same outcome are ONE action object)" if sh else ""), t)
         print("implementation: returned %r ; executed leaves %s" % (ret, log))
         impl = enc_tree(ret, log)
-        model, _ = common.coq_eval("C20", "Model.ActionTree", "run_C20_tree %s" % c_tree(t, [0]))
-        fails = oracle_tree(t, ret, log)
+        model, _ = common.coq_eval("C20", "Model.ActionTree", "run_C20_tree %s" %
+                                   c_tree(t, [0], canon_ids(t, [0], {}, {}) if sh else None))
+        fails = oracle_tree(t, ret, log, shared=sh)
     elif kind == "handler-ops":
         ops = _tup(case["ops"])
         impl, accepted, delivered, extra, _ = run_handler_ops(case["handler"], case["workers"], case["max_size"], ops)
